@@ -25,7 +25,7 @@ TRUSTED = {
   "value.table_id": "RecordStub/RecordSetStub fields come from decoded (already marshalled) data",
   "value.row_id": "RecordStub field from decoded data",
   "value.row_ids": "RecordSetStub field from decoded data",
-  "value._get_encodable_row_ids()": "RecordSet row ids filtered to ints by records.py",
+  "value._get_encodable_row_ids()": "RecordSet helper; its own returns are checked below (R2)",
   "value.value_repr": "UnmarshallableValue holds a decoded str or a repr()",
   "moment.dt_to_ts(value)": "float arithmetic on a datetime",
   "moment.date_to_ts(value)": "float arithmetic on a date",
@@ -40,6 +40,7 @@ def check(run, repo, tier):
   r1_alphabet(run, w)
   r2_marshal_safety(run, w)
   r3_reply_paths(run, w)
+  r4_exception_roundtrip(run, w)
 
 
 def _codes_emitted(fn):
@@ -116,7 +117,7 @@ def _exact_guard_names(fn):
         if isinstance(p, ast.Compare) and isinstance(p.ops[0], ast.In) and \
             isinstance(p.left, ast.Call) and dotted(p.left.func) == "type" and \
             isinstance(p.comparators[0], (ast.Tuple, ast.List)) and \
-            all(dotted(e) in ("str", "float", "bool", "int", "bytes") for e in
+            all(dotted(e) in ("str", "float", "bool", "int", "bytes", "list", "tuple") for e in
                 p.comparators[0].elts):
           names.add(text(p.left.args[0]))
         elif isinstance(p, ast.Compare) and isinstance(p.ops[0], ast.Is) and \
@@ -230,12 +231,65 @@ def r2_marshal_safety(run, w):
           ok = _exact_str(v)
           run.ob(R2, m.qualname, short(n, 80), "exception field sent to Node is an exact str "
                  "or None", ok, fi=m, node=n)
+  # RecordSet._get_encodable_row_ids returns an exact list/tuple: the stored row ids only under an
+  # exact-type test, otherwise rebuilt with list()/tuple()
+  ge = w.fn("records.RecordSet._get_encodable_row_ids")
+  exact = _exact_guard_names(ge)
+  for r in [n for n in ast.walk(ge.node) if isinstance(n, ast.Return) and n.value is not None]:
+    v = r.value
+    ok = isinstance(v, ast.Call) and dotted(v.func) in ("list", "tuple")
+    if not ok:
+      for n in ast.walk(ge.node):
+        if isinstance(n, ast.If) and id(n) in exact and exact[id(n)] == text(v) and \
+            any(x is r for b in n.body for x in ast.walk(b)):
+          tst = n.test
+          ok = isinstance(tst, ast.Compare) and all(
+            dotted(e) in ("list", "tuple") for e in tst.comparators[0].elts)
+    run.ob(R2, ge.qualname, "return " + short(v), "row ids leave as an exact list/tuple (a list "
+           "subclass such as RecordList is not marshallable)", ok, fi=ge.fi, node=r)
   ea = w.fn("objtypes.RaisedException.encode_args")
   ok = any(isinstance(n, ast.Dict) and [text(k) for k in n.keys] == ["'u'"] and
            isinstance(n.values[0], ast.Call) and dotted(n.values[0].func) == "encode_object"
            for n in ast.walk(ea.node))
   run.ob(R2, ea.qualname, "{'u': encode_object(self.user_input)}", "user input kept with an "
          "exception is itself encoded", ok, fi=ea.fi)
+
+
+def r4_exception_roundtrip(run, w):
+  R4 = run.rule("C24-R4", "RaisedException args: the decoder restores the remembered user input "
+                "by key presence (None is a value), mirroring the encoder", floor=2)
+  ea = w.fn("objtypes.RaisedException.encode_args")
+  # encoder: {"u": ...} exactly when has_user_input()
+  ok = False
+  for n in ast.walk(ea.node):
+    if isinstance(n, ast.If) and text(n.test) == "self.has_user_input()":
+      ok = any(isinstance(x, ast.Dict) and [text(k) for k in x.keys] == ["'u'"]
+               for b in n.body for x in ast.walk(b)) and \
+          any(isinstance(x, ast.Assign) and isinstance(x.value, ast.Constant) and
+              x.value.value is None for b in n.orelse for x in ast.walk(b))
+  run.ob(R4, ea.qualname, "user_input = {'u': encode_object(...)} if self.has_user_input() else None",
+         "the 'u' key is present exactly when an input was remembered", ok, fi=ea.fi)
+  hu = w.fn("objtypes.RaisedException.has_user_input")
+  rets = [n for n in ast.walk(hu.node) if isinstance(n, ast.Return)]
+  ok = len(rets) == 1 and text(rets[0].value).replace("RaisedException.", "self.") in \
+      ("self.user_input is not self.NO_INPUT",)
+  run.ob(R4, hu.qualname, "user_input is not NO_INPUT", "absence of input is the NO_INPUT "
+         "sentinel, not None", ok, fi=hu.fi)
+  da = w.fn("objtypes.RaisedException.decode_args")
+  cfg = da.cfg
+  sets = [n for n in cfg.nodes if n.kind == "stmt" and isinstance(n.stmt, ast.Assign) and
+          text(n.stmt.targets[0]).endswith(".user_input")]
+  final = [n for n in sets if not (cfg.reach_after({n.id}) & {m.id for m in sets})]
+  ok = len(final) == 1 and cfg.dominated_by(cfg.exit.id, {final[0].id})
+  if ok:
+    v = final[0].stmt.value
+    gets = [c for c in calls_in(v) if isinstance(c.func, ast.Attribute) and c.func.attr == "get"
+            and c.args and text(c.args[0]) in ("'u'", '"u"')]
+    ok = isinstance(v, ast.Call) and dotted(v.func) == "decode_object" and len(gets) == 1 and \
+        len(gets[0].args) == 2 and text(gets[0].args[1]).endswith("NO_INPUT")
+  run.ob(R4, da.qualname, "exc.user_input = decode_object(d.get('u', NO_INPUT)) on every path",
+         "a remembered input of None (or any falsy value) is restored; only a missing key means "
+         "no input", ok, fi=da.fi)
 
 
 def _exact_str(v):
@@ -322,6 +376,9 @@ VARIANTS = [
   ("decoder-drops-code", O, "    elif code == 'C':\n      return _censored_sentinel\n", "", "C24-R1"),
   ("exception-message-raw", O, "    elif include_message:\n      self._message = str(error) + location",
    "    elif include_message:\n      self._message = error.args[0] if error.args else None", "C24-R2"),
+  ("row-ids-isinstance", "sandbox/grist/records.py", "    if type(self._row_ids) in (list, tuple):", "    if isinstance(self._row_ids, (list, tuple)):", "C24-R2"),
+  ("decode-drops-none-input", O, '    exc.user_input = decode_object(exc.user_input.get("u", RaisedException.NO_INPUT))',
+   '    saved = exc.user_input.get("u")\n    exc.user_input = decode_object(saved) if saved is not None else RaisedException.NO_INPUT', "C24-R4"),
   ("stored-not-encoded", "sandbox/grist/action_obj.py",
    '"stored":   [actions.get_action_repr(a) for a in self.stored],', '"stored":   [list(a) for a in self.stored],', "C24-R3"),
   ("fetch-table-raw", "sandbox/grist/main.py",
